@@ -23,7 +23,7 @@ def run(ctx):
     from .C09 import DT
     S.append(dict(name='tsm.d1.h3.s1.t1.k-1..3', wrapper='w_periodic_tsm.cpp', defines=DT(1, 3, 1, 1, 0), entry='h_c10_tsm', args=[-2, -1, -9, 0, 3, 0], time_limit=200,
                   note='target/source variant: TbfAlgorithmTsm + TbfAlgorithmPeriodicTopTreeTsm', expect_reach=(520, 521)))
-    S.append(dict(name='tsm.d2.h2.s1.t1.k-1..2', wrapper='w_periodic_tsm.cpp', defines=DT(2, 2, 1, 1, 1), entry='h_c10_tsm', args=[1, -1, -9, 0, 2, 0], time_limit=200, note='', expect_reach=(520, 521)))
+    S.append(dict(name='tsm.d2.h2.s1.t1.k-1..2.box1', wrapper='w_periodic_tsm.cpp', defines=DT(2, 2, 1, 1, 1, BOX=1), entry='h_c10_tsm', args=[1, -1, -9, 0, 2, 0], time_limit=200, note='per-dimension box widths', expect_reach=(520, 521)))
     if not q:
         add('d1.h3.n3.k-1..5', D(1, 3, 3, 0), [-3, -1, -9, 0, 5, 0], 2400, '')
         add('d1.h5.n2.k-1..5', D(1, 5, 2, 1), [-3, -1, -9, 0, 5, 0], 1800, '')
